@@ -332,6 +332,63 @@ func genC04(e *emitter, r *rng, tier string) {
 		b.emit(e, "C04.history.len"+fmt.Sprint((len(b.stmts)/10)*10))
 		e.count("C04.num." + strings.SplitN(ns.desc, ":", 2)[0])
 	}
+	// histories that contain OTHER operations on the Number and on truncated views of it —
+	// formatting (String, Exact, Format), printing, searching — before the reads: none of them may
+	// change what any read path reports afterwards
+	m := 80
+	if tier == "thorough" {
+		m = 1000
+	}
+	for i := 0; i < m; i++ {
+		ex := 1 + r.intn(7)
+		var ns numSpec
+		switch r.intn(4) {
+		case 0:
+			ns = genNumber(-1, ex, false)
+		case 1:
+			ns = genNumber(r.pick([]int{3, 8, 50, 100, 130}), ex, false)
+		case 2:
+			ns = finiteNumber(r, r.pick([]int{3, 8, 12, 50, 100, 130}), ex)
+		default:
+			ns = testNumber(r, 1+r.intn(4), 1+r.intn(4), ex, 0)
+		}
+		b := newScriptBuilder(r, ns)
+		k := 1 + r.intn(max(ex, 2))
+		b.add("wsig:0:%d", k)
+		b.handles = append(b.handles, hinfo{0, k})
+		if r.coin(30) {
+			b.add("fwd:0:%d", r.pick([]int{1, 5, 20}))
+		}
+		for j := 0; j < 1+r.intn(3); j++ {
+			h := r.intn(2)
+			switch r.intn(7) {
+			case 0, 1:
+				b.add("exact:%d", h)
+			case 2:
+				b.add("str:%d", h)
+			case 3:
+				b.add("fmt:%d:%%%s", h, r.pickS([]string{"f", ".3f", "12.8e", "v", "g", ".0g", "-20.10G"}))
+			case 4:
+				b.add("pr:%d:r0~%d:%s", h, r.pick([]int{3, 12, 60}), randOpts(r, false))
+			case 5:
+				if ns.digit != nil { // a pattern that certainly occurs (materialisable on an infinite Number)
+					b.add("ffn:%d:%s:1", h, patString([]int{ns.digit(0)}))
+				}
+			default:
+				b.add("astr:%d", h)
+			}
+		}
+		for _, h := range []int{0, 1, 0} {
+			b.add("fwd:%d:%d", h, 20)
+			b.add("at:%d:%d", h, k)
+			b.add("at:%d:%d", h, max(k-1, 0))
+			if b.finiteWork(h) {
+				b.add("back:%d:%d", h, 20)
+				b.add("astr:%d", h)
+			}
+		}
+		b.emit(e, "C04.history.otherops")
+	}
 }
 
 func genC07(e *emitter, r *rng, tier string) {
